@@ -91,6 +91,45 @@ Deliverables, in `/tmp/benign/{pid}/{k}/` (create the directory):
   * `meta.json`  - {{"summary": "<what was refactored and why it is equivalent>", "files_changed": [...]}}
 Leave the worktree in the patched state. Finish with a 3-line summary.
 '''
+HUNT='''# Task: find a GENUINE existing bug -- an input for which property {pid} of CQCL/guppylang is violated by the code AS IT IS
+
+You work ONLY inside your own scratch git worktree of the repository: `{wt}` (a checkout of the repository's current HEAD).
+Do not read or write anything under /repo or /verif, and do NOT modify the sources in the worktree. Work economically.
+
+## The property (given, fixed)
+
+**{pid} - {title}**
+
+Statement: {statement}
+
+Quantified over: {quant}
+
+Code anchors: files {files}; mechanisms: {mech}
+
+## What to do
+
+Read the anchored code critically and construct inputs (Guppy programs, call sequences, direct calls of internal functions with
+well-formed arguments) that the property covers, looking for one where the UNMODIFIED code does the wrong thing: accepts what must
+be rejected, rejects what must be accepted, crashes with an internal error (AssertionError, InternalGuppyError, KeyError ...) on a
+valid input, produces ill-formed or mis-wired output, drops something silently. Think about corner cases the maintainers' tests
+are unlikely to cover: nested and combined constructs, aliasing, empty / boundary values, unusual but legal spellings, generic
+code, interplay of two features. These are ALREADY KNOWN, do not report them again: {avoid}
+
+How to run the sources of your worktree (the installed guppylang in site-packages is a different, newer version):
+
+    PYTHONPATH=/tmp/shim:{wt}/guppylang/src:{wt}/guppylang-internals/src /venv/bin/python your_script.py
+
+`.check()` on a `@guppy` function works. `.compile()` fails at a late unrelated packaging step in this sandbox (missing `tket.bool`
+extension ops); to look at lowered code use `ENGINE.check(defn.id); CompilerContext(hugr.build.function.Module()).compile(ENGINE.checked[defn.id])`
+from `guppylang_internals.engine` / `guppylang_internals.compiler.core`. No network; install nothing.
+
+Deliverables, in `/tmp/hunt/{pid}/{k}/` (create the directory): for EACH distinct genuine violation you can demonstrate (at most 3)
+  * `bug<N>.py`  - a self-contained script (run as shown above) that prints what it observes and exits 1 because the property is
+                   violated on the unmodified tree (it would exit 0 on a correct implementation), with a docstring explaining the
+                   expected and the observed behaviour and the line(s) of code responsible
+and a `report.md` with one paragraph per finding (or "none found" plus what you tried). Be strict: only report behaviour that the
+property statement above really forbids, and say so if a finding is borderline. Finish with a 5-line summary.
+'''
 AVOID={
  'C01':'changing the `not v.ty.droppable` filter of compile_bb to `v.ty.linear`',
  'C10':'re-introducing set.pop()/set iteration in check_rows_match, the analysis worklists, check_call, monomorphization errors or struct parsing',
@@ -170,7 +209,11 @@ wt=f'/tmp/wt/{pid}-{k}'
 a=p['anchors']
 txt=TEMPLATE.format(pid=pid,k=k,wt=wt,title=p['title'],statement=p['statement'],quant=p['quantifier']['text'],why=p['why_tests_cant'],
   files=', '.join(a['files']), mech='; '.join(m['name'] for m in a.get('mechanism',[])), avoid=AVOID.get(pid,'(none)')+'; '+AVOID2.get(pid,'')+'; '+AVOID3.get(pid,'')+'; and (summaries of earlier seeds) '+' | '.join(_prev), focus=focus, persona=persona)
-if len(sys.argv)>5 and sys.argv[5]=='benign':
+if len(sys.argv)>5 and sys.argv[5]=='hunt':
+    txt=HUNT.format(pid=pid,k=k,wt=wt,title=p['title'],statement=p['statement'],quant=p['quantifier']['text'],
+      files=', '.join(a['files']), mech='; '.join(m['name'] for m in a.get('mechanism',[])), avoid=focus)
+    open(f'/tmp/seedprompt/{pid}-h{k}.md','w').write(txt)
+elif len(sys.argv)>5 and sys.argv[5]=='benign':
     txt=BENIGN.format(pid=pid,k=k,wt=wt,title=p['title'],statement=p['statement'],quant=p['quantifier']['text'],
       files=', '.join(a['files']), mech='; '.join(m['name'] for m in a.get('mechanism',[])))
     if focus and not focus.startswith('('):
